@@ -45,7 +45,7 @@ class ApiGen:
         for _ in range(4 + r.below(10)):
             k = r.weighted([('ok', 6), ('probe', 5), ('rterr', 3), ('parse', 2), ('pp', 2), ('type', 1), ('loop', 2), ('spawn', 1),
                             ('ppcall', 1), ('transpile', 1), ('status', 3), ('cfg', 2), ('new', 2), ('del', 1), ('bad', 1), ('long', 2),
-                            ('throw', 1), ('caught', 1), ('spawnfail', 2), ('evalcall', 3), ('exitcall', 1), ('macro', 4), ('asmbad', 2)])
+                            ('throw', 1), ('caught', 1), ('spawnfail', 2), ('evalcall', 3), ('exitcall', 1), ('macro', 4), ('asmbad', 2), ('tofixed', 2), ('strnum', 3), ('evalspawn', 2)])
             if not inst and k not in ('new', 'bad'):
                 k = 'new'
             self.note(k)
@@ -142,6 +142,25 @@ class ApiGen:
                 else:
                     code = '#ifndef LIMIT\nga = 2\n#else\n%s\n#endif' % ERR
                     I['globals'].add('ga')
+            elif k == 'evalspawn':
+                # a script spawned by an expression that is evaluated while the text is preprocessed, in a call that executes
+                # nothing (type p, or a text that does not parse): it is not left behind for the next call
+                g = r.choice([x for x in GLOBALS if x not in I['globals']] or ['gz'])
+                if r.chance(1, 2):
+                    ty = 'p'
+                    code = '__EVAL([] spawn { %s = 5 }; 1)' % g
+                else:
+                    code = '__EVAL([] spawn { %s = 5 }; 1) +' % g
+                    rc = -3
+            elif k == 'tofixed':
+                # the print mode a script selects ends with its run: a later call prints numbers in the default mode
+                g = r.choice(GLOBALS)
+                code = 'toFixed %d; %s = 1' % (r.below(5), g)
+                I['globals'].add(g)
+            elif k == 'strnum':
+                g = r.choice(GLOBALS)
+                code = 'if (str 1.23456 != "1.23456") then { %s }; if (str 0.5 != "0.5") then { %s }; %s = 1' % (ERR, ERR, g)
+                I['globals'].add(g)
             elif k == 'asmbad':
                 # an assembly text the assembly parser rejects: -3, its diagnostic tagged with this instance and this call
                 ty = 'a'
